@@ -777,6 +777,12 @@ impl<'a> Exec<'a> {
         }
       }
     }
+    // a slice of `unit` slots can reclaim or un-mark at most `unit` strings: a mark that disappears
+    // without the sweeper passing over its slot is a lost mark (the model otherwise *learns* from
+    // the un-marking which slots the sweeper passed, so it has to bound it)
+    if reclaimed + cleared > unit as u64 {
+      fail!("sweep_exceeds_work_unit", i, op, "sweep({}) reclaimed {} and un-marked {} strings: more slots were touched than the slice has", unit, reclaimed, cleared);
+    }
     if (unused_after - unused_before) as u64 != reclaimed {
       // slots the mutator never held a handle for cannot exist: every table string was handed out
       fail!("reclaim_accounting", i, op, "{} slots were reclaimed but only {} of them belong to handles given out", unused_after - unused_before, reclaimed);
